@@ -4,14 +4,15 @@
  *   one uv_tcp_t (t) or uv_pipe_t (p) per case
  *   ops: Tl|Tc   uv_tcp_connect to the harness's listening port / to a closed port
  *        B       uv_tcp_bind to the (busy) address of the harness's listener
- *        Pl|Pm|Po|Pe|Pn     uv_pipe_connect (void) to: listening path, missing path,
- *                           over-long path, "", a regular file
+ *        Pl|Pm|Po|Pe|Pn|Pf  uv_pipe_connect (void) to: listening path, missing path,
+ *                           over-long path, "", a regular file, a listener whose backlog is full
  *        Q<flags><target>   uv_pipe_connect2, flags digit 0|1|2, targets as above plus
  *                           z (name with an embedded NUL)
  *        C uv_close   R uv_run(NOWAIT)
  *   script: s<0|errno> per socket() made inside a connect call; p|e<errno> per connect();
  *           gp|g<errno> per getsockopt(SO_ERROR) (gp: ask the kernel)
- *   output: trace ; socket log ; connect log ; SO_ERROR log ; event bits
+ *   output: trace ; socket log ; connect log ; SO_ERROR log ; event bits ; verification log
+ *           (s<req>,<op>,<arrivals> at submit, c<req>,<status>,<arrivals>,<getpeername> at callback, e<arrivals>)
  *   trace:  u<req>:<ret> submit, k<req>:<status> connect_cb, x close_cb
  *
  * send-handle cases:  w ; <stream><state><handle><api>
@@ -60,7 +61,9 @@ static int nreq, g_active, g_quiet, g_closing, in_call, saw_event, g_watch_fd;
 static char* beh[MAXBEH]; static int nbeh, cbn;
 static char** scr_s; static char** scr_c; static char** scr_g; static int n_s, n_c, n_g, p_s, p_c, p_g;
 static FILE *slog, *clog_, *glog, *evlog; static char *slog_b, *clog_b, *glog_b, *ev_b; static size_t slog_n, clog_n, glog_n, ev_n;
-static int listener = -1, lport, ulistener = -1, cport;
+static int listener = -1, lport, ulistener = -1, cport, flistener = -1;
+static char fpath[160];
+static FILE* vlog; static char* vlog_b; static size_t vlog_n; static int unclaimed;
 static char upath[160], missing[160], overlong[512], regfile[160];
 /* write2 part */
 static int w_fd = -1; static FILE* wlog; static char* wlog_b; static size_t wlog_n; static int w_logged;
@@ -133,12 +136,35 @@ ssize_t __wrap_write(int fd, const void* b, size_t n) {
   errno = e; return r;
 }
 
+/* connections that reached the harness's listeners since the last call (they are closed at once) */
+static int arrivals(void) {
+  int s, n = 0;
+  while ((s = accept4(listener, NULL, NULL, SOCK_NONBLOCK)) >= 0) { abort_close(s); n++; }
+  while ((s = accept4(ulistener, NULL, NULL, SOCK_NONBLOCK)) >= 0) { close(s); n++; }
+  return n;
+}
+
 static void run_beh(void) {
   int k = cbn++;
   if (k < nbeh) { char* copy = strdup(beh[k]); do_ops(copy, 1); free(copy); }
 }
 static void connect_cb(uv_connect_t* r, int status) {
   if (g_quiet) return;
+  {
+    /* for the monitor only: did a connection reach the listener, is the socket connected */
+    int a, gp = 1; uv_os_fd_t fd = -1;
+    if (status == 0) {            /* before the listener side is looked at: it resets what it accepts */
+      struct sockaddr_storage ss; socklen_t sl = sizeof ss;
+      gp = (uv_fileno((uv_handle_t*) r->handle, &fd) == 0 && getpeername(fd, (struct sockaddr*) &ss, &sl) == 0) ? 0 : -errno;
+    }
+    a = arrivals();
+    if (status == 0 && a + unclaimed == 0) {
+      struct pollfd pf[2]; pf[0].fd = listener; pf[1].fd = ulistener; pf[0].events = pf[1].events = POLLIN;
+      pf[0].revents = pf[1].revents = 0; poll(pf, 2, 2000); a = arrivals();
+    }
+    if (status == 0) unclaimed = a + unclaimed > 0 ? a + unclaimed - 1 : 0; else unclaimed += a;
+    fprintf(vlog, "c%d,%d,%d,%d ", ((struct creq*) r)->id, status, a, gp);
+  }
   printf("k%d:%d ", ((struct creq*) r)->id, status);
   run_beh();
 }
@@ -154,6 +180,7 @@ static const char* pipe_target(char t, size_t* len) {
   case 'o': s = overlong; break;
   case 'e': s = ""; break;
   case 'n': s = regfile; break;
+  case 'f': s = fpath; break;        /* listening, backlog full: connect(2) = EAGAIN */
   default: s = missing; break;
   }
   *len = strlen(s);
@@ -174,6 +201,7 @@ static void do_ops(char* ops, int in_cb) {
           struct sockaddr_in6 a6; memset(&a6, 0, sizeof a6);
           a6.sin6_family = AF_INET6; a6.sin6_addr = in6addr_loopback; a6.sin6_port = htons(lport);
           q = &reqs[nreq]; q->id = nreq; nreq++;
+          { int a0 = arrivals(); unclaimed += a0; fprintf(vlog, "s%d,%s,%d ", q->id, tok, a0); }
           in_call = 1; r = uv_tcp_connect(&q->req, &h.tcp, (struct sockaddr*) &a6, connect_cb); in_call = 0;
           printf("u%d:%d ", q->id, r);
           break;
@@ -181,6 +209,7 @@ static void do_ops(char* ops, int in_cb) {
         if (tok[1] == 'l') a.sin_port = htons(lport);
         else a.sin_port = htons(cport);   /* bound by the harness, never listening: refused, and nobody else can take it */
         q = &reqs[nreq]; q->id = nreq; nreq++;
+        { int a0 = arrivals(); unclaimed += a0; fprintf(vlog, "s%d,%s,%d ", q->id, tok, a0); }
         in_call = 1; r = uv_tcp_connect(&q->req, &h.tcp, (struct sockaddr*) &a, connect_cb); in_call = 0;
         printf("u%d:%d ", q->id, r);
       }
@@ -207,6 +236,7 @@ static void do_ops(char* ops, int in_cb) {
       if (g_kind != 'p' || g_closing || nreq >= MAXREQ) break;
       name = pipe_target(tok[1], &len);
       q = &reqs[nreq]; q->id = nreq; nreq++;
+      { int a0 = arrivals(); unclaimed += a0; fprintf(vlog, "s%d,%s,%d ", q->id, tok, a0); }
       in_call = 1; uv_pipe_connect(&q->req, &h.pipe, name, connect_cb); in_call = 0;
       printf("u%d:0 ", q->id);
       break;
@@ -218,6 +248,7 @@ static void do_ops(char* ops, int in_cb) {
         if (tok[2] == 'z') { snprintf(zname, sizeof zname, "%s", missing); len = strlen(zname) + 3; zname[strlen(zname) + 1] = 'a'; name = zname; }
         else name = pipe_target(tok[2], &len);
         q = &reqs[nreq]; q->id = nreq; nreq++;
+        { int a0 = arrivals(); unclaimed += a0; fprintf(vlog, "s%d,%s,%d ", q->id, tok, a0); }
         in_call = 1; r = uv_pipe_connect2(&q->req, &h.pipe, name, len, flags, connect_cb); in_call = 0;
         printf("u%d:%d ", q->id, r);
       }
@@ -240,11 +271,7 @@ static void do_ops(char* ops, int in_cb) {
   }
 }
 
-static void drain_listeners(void) {
-  int s;
-  while ((s = accept4(listener, NULL, NULL, SOCK_NONBLOCK)) >= 0) abort_close(s);
-  while ((s = accept4(ulistener, NULL, NULL, SOCK_NONBLOCK)) >= 0) close(s);
-}
+static void drain_listeners(void) { (void) arrivals(); }
 
 static void run_connect_case(char** sec) {
   char* p; char* save; int i;
@@ -265,21 +292,24 @@ static void run_connect_case(char** sec) {
     } }
   slog = open_memstream(&slog_b, &slog_n); clog_ = open_memstream(&clog_b, &clog_n);
   glog = open_memstream(&glog_b, &glog_n); evlog = open_memstream(&ev_b, &ev_n);
+  vlog = open_memstream(&vlog_b, &vlog_n);
   nreq = 0; g_quiet = 0; g_closing = 0; in_call = 0; g_watch_fd = -1;
   uv_loop_init(&loop);
   uv_prepare_init(&loop, &keepalive); uv_prepare_start(&keepalive, prep_cb);
   if (g_kind == 't') uv_tcp_init(&loop, &h.tcp); else uv_pipe_init(&loop, &h.pipe, 0);
   g_active = 1;
+  (void) arrivals(); unclaimed = 0;
   do_ops(sec[1], 0);
-  fclose(slog); fclose(clog_); fclose(glog); fclose(evlog);
+  fprintf(vlog, "e%d ", arrivals());
+  fclose(slog); fclose(clog_); fclose(glog); fclose(evlog); fclose(vlog);
   /* close every handle, let the loop finish: nothing may be left registered */
   g_quiet = 1; g_active = 0;
   uv_walk(&loop, walk_close, NULL);
   for (i = 0; i < 50 && uv_run(&loop, UV_RUN_NOWAIT); i++) ;
   { int alive = uv_loop_alive(&loop); printf("z%d,%d ", alive, uv_loop_close(&loop)); }
-  printf("; %s; %s; %s; %s\n", slog_b, clog_b, glog_b, ev_b);
+  printf("; %s; %s; %s; %s; %s\n", slog_b, clog_b, glog_b, ev_b, vlog_b);
   drain_listeners();
-  free(slog_b); free(clog_b); free(glog_b); free(ev_b); free(scr_s); free(scr_c); free(scr_g);
+  free(slog_b); free(clog_b); free(glog_b); free(ev_b); free(vlog_b); free(scr_s); free(scr_c); free(scr_g);
 }
 
 /* ---------------- send-handle table ---------------- */
@@ -389,6 +419,14 @@ int main(int argc, char** argv) {
   memset(&ua, 0, sizeof ua); ua.sun_family = AF_UNIX; strcpy(ua.sun_path, upath);
   unlink(upath);
   if (bind(ulistener, (struct sockaddr*) &ua, sizeof ua) || listen(ulistener, 128)) { fprintf(stderr, "no unix listener\n"); return 2; }
+  /* a listening unix socket whose backlog is and stays full: further connects get EAGAIN */
+  snprintf(fpath, sizeof fpath, "%s/full%d", g_dir, (int) getpid());
+  unlink(fpath);
+  flistener = socket(AF_UNIX, SOCK_STREAM, 0);
+  memset(&ua, 0, sizeof ua); ua.sun_family = AF_UNIX; strcpy(ua.sun_path, fpath);
+  if (bind(flistener, (struct sockaddr*) &ua, sizeof ua) || listen(flistener, 1)) { fprintf(stderr, "no unix listener\n"); return 2; }
+  { int k; for (k = 0; k < 16; k++) { int c = socket(AF_UNIX, SOCK_STREAM | SOCK_NONBLOCK, 0);
+      if (connect(c, (struct sockaddr*) &ua, sizeof ua) != 0) { close(c); break; } } }
   while (getline(&line, &cap, stdin) > 0) {
     char* sec[4]; int nsec = 0; char* p = line; size_t n = strlen(line);
     if (n && line[n - 1] == '\n') line[n - 1] = 0;
@@ -402,6 +440,6 @@ int main(int argc, char** argv) {
     else printf("badcase\n");
     fflush(stdout);
   }
-  unlink(upath); unlink(regfile);
+  unlink(upath); unlink(regfile); unlink(fpath);
   return 0;
 }
